@@ -5,6 +5,7 @@ import (
 	"fmt"
 	"os"
 
+	"filippo.io/age/xverif/props/c02"
 	"filippo.io/age/xverif/props/c07"
 	"filippo.io/age/xverif/props/c08"
 	"filippo.io/age/xverif/props/c09"
@@ -12,6 +13,7 @@ import (
 )
 
 var checks = map[string]func(tier string){
+	"C02": c02.Run,
 	"C07": c07.Run,
 	"C08": c08.Run,
 	"C09": c09.Run,
